@@ -107,6 +107,50 @@ class H:
     child: M = Attr(default_factory=lambda: M(v=1))
     kids: List[M] = []
 ''',
+    "diamond_new": '''
+from spec_classes import spec_class
+
+class Root:
+    def __new__(cls, *args, **kwargs):
+        inst = super().__new__(cls)
+        inst.__dict__["root_new"] = inst.__dict__.get("root_new", 0) + 1
+        return inst
+
+@spec_class(bootstrap=BOOT)
+class M(Root):
+    x: int = 1
+
+class Arm(Root):
+    def __new__(cls, *args, **kwargs):
+        inst = super().__new__(cls, *args, **kwargs)
+        inst.__dict__["arm_new"] = True
+        return inst
+
+class S(M, Arm):  # MRO: S, M, Arm, Root - every __new__ along it runs, also for the very first instance
+    pass
+''',
+    "diamond_post_init": '''
+from spec_classes import spec_class
+
+@spec_class(bootstrap=BOOT)
+class M:
+    a: int = 1
+
+@spec_class(bootstrap=BOOT)
+class S(M):
+    b: int = 2
+
+@spec_class(bootstrap=BOOT)
+class P(M):
+    c: int = 3
+
+@spec_class(bootstrap=BOOT)
+class H(S, P):
+    d: int = 4
+
+    def __post_init__(self):
+        self.d = self.d + 1  # the first assignment on an instance walks the class dictionaries of the whole MRO
+''',
     "lazy_parent": '''
 from typing import Dict
 from spec_classes import spec_class, Attr
@@ -256,6 +300,9 @@ def thread_plans(names, nthreads):
                 [("metadata", base), ("metadata", base)]]
     x = subs[0]
     y = subs[-1]
+    if len(subs) == 3:  # diamond: the leaf together with each of the classes above it
+        return [[("instantiate", y), ("instantiate", subs[1])], [("instantiate", y), ("instantiate", x)], [("instantiate", subs[1]), ("instantiate", y)], [("instantiate", y), ("instantiate", base)],
+                [("instantiate", y), ("instantiate", y)], [("instantiate", y), ("metadata", subs[1])]]
     return [[("instantiate", x), ("instantiate", x)], [("instantiate", y), ("instantiate", y), "preuse_parent"], [("instantiate", x), ("instantiate", base)], [("instantiate", base), ("metadata", base)],
             [("instantiate", y), ("metadata", y)], [("metadata", base), ("fields", base)], [("instantiate", x), ("instantiate", x), "preuse_parent"]]
 
@@ -448,7 +495,7 @@ def run(ctx, params):
 
 
 def plan(tier, seed):
-    kinds = ["gen", "new_defined", "plain_lazy_chain", "nested_type", "gen", "lazy_parent", "sub_defines_new", "plain_lazy_chain"]
+    kinds = ["gen", "new_defined", "plain_lazy_chain", "nested_type", "gen", "lazy_parent", "sub_defines_new", "diamond_new", "diamond_post_init"]
     if tier == "quick":
-        return [{"shard": i, "sources": 2, "kinds": kinds[i % 8 :] + kinds[: i % 8], "single": 40, "double": 30, "priority_double": 160, "pct": 10, "threads": 3 if i % 4 == 3 else 2} for i in range(16)]
-    return [{"shard": i, "sources": 12, "kinds": kinds[i % 8 :] + kinds[: i % 8], "single": "all", "double": 1500, "pct": 300, "threads": 3 if i % 4 == 3 else 2} for i in range(32)]
+        return [{"shard": i, "sources": 2, "kinds": kinds[i % 9 :] + kinds[: i % 9], "single": 40, "double": 30, "priority_double": 160, "pct": 10, "threads": 3 if i % 4 == 3 else 2} for i in range(16)]
+    return [{"shard": i, "sources": 12, "kinds": kinds[i % 9 :] + kinds[: i % 9], "single": "all", "double": 1500, "pct": 300, "threads": 3 if i % 4 == 3 else 2} for i in range(32)]
